@@ -220,9 +220,16 @@ func evalString(t *target, s []byte, it *item, reason string, cx *ctx, part stri
 		}
 	}
 	st.dist("distinct_nontrivial", t.name+"|"+errClass(err)+"|"+key)
-	if accept {
+	switch {
+	case accept && part == "scalars":
+		st.add("accepted", 1)
+		st.add("scalar_accepted", 1)
+		st.dist("scalar_targets_accepting", t.name)
+	case accept:
 		st.add("accepted", 1)
 		st.add("accepted_"+t.name, 1)
+	case part == "scalars":
+		st.dist("scalar_targets_rejecting", t.name)
 	}
 	flagged := false
 	switch {
@@ -260,7 +267,7 @@ func evalString(t *target, s []byte, it *item, reason string, cx *ctx, part stri
 			flagged = true
 		}
 		if st.n["accepted"]%997 == 1 && len(s) >= 3 && len(st.samples) < 1 && !t.rawish && reason == "" {
-			st.samples = append(st.samples, map[string]interface{}{"part": "strings", "type": t.name, "input": hx(s), "outcome": "accepted, re-encoding identical", "shape": key})
+			st.samples = append(st.samples, map[string]interface{}{"part": part, "type": t.name, "input": trunc(hx(s), 160), "outcome": "accepted, re-encoding identical", "shape": key})
 		}
 	}
 	// Stream variants must agree with DecodeBytes (except that a Stream does not look at trailing bytes) and
